@@ -36,11 +36,9 @@ pub fn ladder_source(construct: &str, depth: usize) -> String {
         "macro-nest-var" => format!("{}x{}", "[x].all(e, ".repeat(d), ")".repeat(d)),
         "has-nest" => format!("{}x{}", "has(".repeat(d), ")".repeat(d)),
         "coalesce-nest" => format!("{}x{}", "coalesce(".repeat(d), ")".repeat(d)),
-        "fstring-nest" => {
-            // f'{f"{...}"}' alternating quote styles is not nestable beyond depth 2 lexically;
-            // use string() of an f-string inside a call instead
-            format!("{}'a'{}", "string(f'{".repeat(d.min(1)), "}')".repeat(d.min(1)))
-        }
+        // the tokenizer only counts braces inside a placeholder, so f-strings nest to any depth
+        "fstring-nest" => format!("{}1{}", "f'{".repeat(d), "}'".repeat(d)),
+        "fstring-nest-var" => format!("{}x{}", "f'{".repeat(d), "}'".repeat(d)),
         "match-nest" => format!("{}1{}", "match x { case _: ".repeat(d), " }".repeat(d)),
         "match-scrutinee-nest" => format!("{}x{}", "match ".repeat(d), " { case _: 1 }".repeat(d)),
         "list-wide" => format!("[{}]", vec!["1"; d].join(",")),
@@ -56,7 +54,7 @@ pub fn ladder_source(construct: &str, depth: usize) -> String {
 pub const LADDER_CONSTRUCTS: &[&str] = &[
     "paren", "list", "map", "not", "neg", "not-var", "ternary-right", "ternary-paren", "add-chain", "add-chain-var",
     "or-chain", "and-chain", "rel-chain", "field-chain", "index-chain", "call-nest", "dyn-nest-var", "method-chain",
-    "macro-nest", "macro-nest-var", "has-nest", "coalesce-nest", "match-nest", "match-scrutinee-nest", "list-wide",
+    "macro-nest", "macro-nest-var", "has-nest", "coalesce-nest", "fstring-nest", "fstring-nest-var", "match-nest", "match-scrutinee-nest", "list-wide",
     "list-wide-var", "map-wide", "args-wide", "string-long", "ident-long",
 ];
 
